@@ -23,6 +23,11 @@ D = DR.D
 M = "rust_value"
 
 
+def _mask_copy_selector(t):
+    """the condition that selects `[x; len]` over `[x, x, ..]` (the Copy heuristic) is left open: both forms have the definition's length"""
+    return re.sub(r"(TypeDef::Array\(\$\)=>Ok\(if\().*?(\)\{T\[\[ #0 ; #1 \]\])", r"\1<selector>\2", t, count=1, flags=re.S)
+
+
 def check(ctx):
     P = ctx.P
     # C14.1 typed literals
@@ -96,7 +101,8 @@ def check(ctx):
     # C14.5..7 ty_example
     fn = DR.expect_golden(ctx, "C14.6", "ty-example", "rust/ty_example", "rust_value::ty_example",
                           "struct: path(id) + fields(marker flag); enum: path(id)::Variant + that variant's fields (no marker); vec![a, b]; [x; len] / len repetitions; "
-                          "( #(#f,)* ) tuples; primitives; compact -> inner; middleware first")
+                          "( #(#f,)* ) tuples; primitives; compact -> inner; middleware first",
+                          mask=_mask_copy_selector)
     if fn is not None:
         N = Norm(fn)
         ms = q.matches_on(fn["body"], lambda t: t.startswith("scale_info::TypeDef<"))
@@ -121,7 +127,8 @@ def check(ctx):
             ctx.expect("(A.len as usize)" in at and at.count("(A.len as usize)") == 2, "C14.6", "array-arity", site(arms["Array"]), "both array forms use the definition's len", "array arm: " + at[:300])
     DR.expect_golden(ctx, "C14.7", "path-without-generics", "rust/resolve_type_path_omit_generics", "resolve_type_path_omit_generics",
                      "path = tokens of the generator's resolve_type_path(id) (optional middleware), cut before the generic arguments")
-    DR.expect_golden(ctx, "C14.6", "copy-heuristic", "rust/type_def_is_copy", "type_def_is_copy", "copy heuristic only selects between two equivalent array forms")
+    # (the Copy heuristic only selects between the two array forms, which both have the definition's length: its own body is not part of the
+    # conformance rule; its recursion is classified under C14.9 below)
     # C14.8 Box agreement between the sibling field emitters
     box_users = {}
     for c, b in P.all_bodies(DR.LIBS):
@@ -146,7 +153,7 @@ def check(ctx):
         g, table = DR.graph(ctx, entry["path"])
         reach = k10.reachable(g, [entry["path"]])
         # only the description crate's own functions: the generator's sites are C10's
-        with ctx.only(lambda k: "type_def_is_copy" in k or "rust_value::ty_example" in k):
+        with ctx.only(lambda k: k.startswith("scc/")):
             k13.check_sccs(ctx, "C14.9", g, {f for f in reach if f.startswith(D)}, DR.LIBS, [b for b in table if b["in"] == entry["path"]])
         inv = [s for s in k10.inventory(P, (D,)) if s.owner in reach]
         from .. import panics
